@@ -126,6 +126,10 @@ func propC09() *Prop {
 			}
 			js = append(js, job("C09h/cleanup", "ratelimiter", "VerifC09Cleanup"))
 			js = append(js, lbJob("C09f/gate[ServeHTTP + limiter + breaker]", "VerifC09Gate"))
+			for l := int64(1); l <= tierPick(tier, 3, 4); l++ {
+				js = append(js, lbJob(fmt.Sprintf("C09e/isolation-any-two-client-addresses[every pair of different printable X-Forwarded-For values of %d bytes]", l), "VerifC09IsolationAny", l))
+			}
+			js = append(js, arith(lbJob("C09f/limiter-as-the-balancer-builds-it[real validation + setupRateLimiter, max_tokens 1..3, refill 1..3600 s]", "VerifC09Wiring")))
 			for l := int64(0); l <= tierPick(tier, 3, 4); l++ {
 				js = append(js, lbJob(fmt.Sprintf("C09f/gate-any-client-attribution[every ASCII X-Forwarded-For of %d bytes]", l), "VerifC09GateAny", l))
 			}
@@ -175,7 +179,8 @@ func propC07() *Prop {
 				js = append(js, job("C07a/timed-histories[k=3 steps of (any time passes, then a request)]", "circuitbreaker", "VerifC07SeqTimed", 3))
 			}
 			js = append(js, neg(job("C07a/negative-twin", "circuitbreaker", "VerifC07NegStep")))
-			js = append(js, lbJob("C07c/wiring[ServeHTTP + breaker + scripted backend]", "VerifC07Wiring"))
+			js = append(js, lbJob("C07c/wiring[ServeHTTP + breaker + scripted backend]", "VerifC07Wiring", 0))
+			js = append(js, lbJob("C07c/wiring[the backend may send interim 1xx responses before its final status]", "VerifC07Wiring", 1))
 			js = append(js, threadJob(job("C07b/concurrent-admission[2 threads]", "circuitbreaker", "VerifC07Concurrent", 2), 2))
 			if tier == "thorough" {
 				js = append(js, threadJob(job("C07b/concurrent-admission[3 threads]", "circuitbreaker", "VerifC07Concurrent", 3), 2))
@@ -369,6 +374,8 @@ func propC06() *Prop {
 					add(job(fmt.Sprintf("C06d/append[N=%d->%d,L=%d]", n, n+1, l), "loadbalancer", "VerifC06Append", n, l))
 				}
 			}
+			add(lbJob("C06c/affinity-across-source-ports[ip_hash,N=5,RemoteAddr forms incl. bracketed IPv6]", "VerifC06RemoteAddrForms", 3, 5))
+			add(lbJob("C06c/affinity-across-source-ports[ip_hash_consistent,N=5,RemoteAddr forms incl. bracketed IPv6]", "VerifC06RemoteAddrForms", 4, 5))
 			js = append(js, threadJob(lbJob("C06c/affinity-under-concurrent-requests[ip_hash,N=3]", "VerifC06AffinityConcurrent", 3, 3), int(tierPick(tier, 2, 3))))
 			js = append(js, threadJob(lbJob("C06c/affinity-under-concurrent-requests[ip_hash_consistent,N=3]", "VerifC06AffinityConcurrent", 4, 3), int(tierPick(tier, 2, 3))))
 			js = append(js, neg(job("C06c/negative-twin", "loadbalancer", "VerifC06NegAffinity")))
@@ -742,6 +749,7 @@ func propC20() *Prop {
 				j.MaxPaths = 3000000
 				js = append(js, j)
 			}
+			js = append(js, threadJob(lbJob("C20a/pool-as-the-balancer-builds-it[real validation + setupWebSocketPool, max_idle 1..3, max_active 0..4, idle_timeout 1..600 s]", "VerifC20Wiring"), 1))
 			js = append(js, lbJob("C20b/hijack[balancer writer]", "VerifC20Hijack"))
 			for i, n := range []string{"cleanup || Put", "Get || Get", "Put || Shutdown", "first Put of a new backend || Shutdown"} {
 				js = append(js, threadJob(lbJob("C20c/concurrent["+n+"]", "VerifC20Concurrent", int64(i)), int(tierPick(tier, 2, 3))))
